@@ -100,6 +100,7 @@ func (Prop) Run(c *engine.Ctx) {
 	})
 
 	runInternal(c)
+	runOrdField(c)
 
 	// ---- Add / Double ---------------------------------------------------------------------------------
 	for _, p := range pts {
